@@ -2,6 +2,7 @@
    This file contains only the property theorems. *)
 From Coq Require Import List String ZArith.
 From Verif Require Import Calcium.DeployStatus Calcium.DeployStatusProofs Calcium.DecrLoop Calcium.DecrLoopProofs.
+From Verif Require Import Calcium.DeployMulti Calcium.DeployMultiProofs.
 Local Open Scope Z_scope.
 
 (* For both backends, every deployment (any plan with distinct nodes and
@@ -42,6 +43,43 @@ Theorem C13_final : forall b ident plan st0 cs a st,
   forall n, status st n = recorded st n + (status st0 n - recorded st0 n).
 Proof. exact C13_final_thm. Qed.
 Print Assumptions C13_final.
+
+(* ANY NUMBER of concurrent deployments of one (application, entrypoint).  The
+   plan maps slots = (node, ident) to planned counts and is the union of the
+   plans of all the deployments (plan_wf: distinct slots, non-negative counts,
+   no marker of a plan slot exists beforehand).  The acceptor mstep orders the
+   calls of each slot as create.go does (CreateProcessing, then its
+   AddWorkloads/RemoveWorkloads, DeleteProcessing last) and does not relate
+   the calls of different slots at all: every interleaving of all deployments
+   and of their instance goroutines, with every placement of injected
+   failures, is an accepted sequence.  After every prefix cs1 of every accepted
+   sequence, on every node: recorded <= status <= prior + the sum of what all
+   deployments planned there. *)
+Theorem C13_multi_bounds : forall b plan st0 cs1 cs2 r a st n,
+  plan_wf plan st0 -> recorded st0 n <= status st0 n ->
+  mrun b plan (deployed st0) (mstart plan, st0) (cs1 ++ cs2) = Some r ->
+  mrun b plan (deployed st0) (mstart plan, st0) cs1 = Some (a, st) ->
+  recorded st n <= status st n <= status st0 n + planned_on plan n.
+Proof. exact multi_bounds_every_step. Qed.
+Print Assumptions C13_multi_bounds.
+
+(* every prefix of an accepted sequence is itself accepted (so the hypothesis
+   on cs1 above is no restriction) *)
+Theorem C13_multi_prefix_accepted : forall b plan d0 cs1 cs2 s r,
+  mrun b plan d0 s (cs1 ++ cs2) = Some r ->
+  exists m, mrun b plan d0 s cs1 = Some m /\ mrun b plan d0 m cs2 = Some r.
+Proof. exact mrun_app. Qed.
+Print Assumptions C13_multi_prefix_accepted.
+
+(* once all of them returned (every slot's DeleteProcessing succeeded): no
+   marker of any plan slot remains and status = recorded (+ what markers
+   outside the plan contributed before; 0 when there is none) *)
+Theorem C13_multi_final : forall b plan st0 cs a st n,
+  plan_wf plan st0 ->
+  mrun b plan (deployed st0) (mstart plan, st0) cs = Some (a, st) -> mreturned a = true ->
+  marker_of_plan_left plan st = false /\ status st n = recorded st n + (status st0 n - recorded st0 n).
+Proof. exact multi_final. Qed.
+Print Assumptions C13_multi_final.
 
 (* The etcd backend's "record + decrement" is a compare-value retry loop of
    several etcd requests (meta/etcd.go:BatchCreateAndDecr).  For any number n of
